@@ -12,7 +12,7 @@ COMMON_NOTE = ("Trusted base: TLC/SANY; the layer-1 model speaks for the code on
                "(debug assertions, overflow checks, unsafe-precondition checks, opt-level 2) stands for the release build; read-only "
                "cfg(itree_verif) snapshot hooks; in-contract input generation by the harness (re-checked by the trace specification as "
                "enabling conditions).")
-T = "TLA+ model checking (TLC) + TLC validation of traces recorded from the real code"
+T = "TLA+ model checking (TLC; Apalache for the integer abstractions of C11 and C14) + TLC validation of traces recorded from the real code"
 C = {
  "C01": ("TLC decides all three predecessor queries against KeyExpRef for every history over 3-5 keys x 3-5 instants (fixpoint, unbounded length, time of each call free); every state of the model's cover is re-created on the real KeyExpTree, every in-contract call is made there and the logged result and snapshot are validated by TLC; seeded random histories on 8-24 keys on top.", "6/C01"),
  "C02": ("WellFormed (BST order, link consistency, no red-red, equal black heights, sentinel unlinked, height <= 2log2(n+1)+1) is an invariant of MCOrd (6-9 keys, capacity hints) and MCKey; TLC evaluates the same predicate on the snapshot of every logged state of MapTree, SetTree and KeyExpTree (cover fan-out, random churn on 64 keys, monotone fills, sampled snapshots of trees with hundreds of entries); the EXACT comparison shows zero drift between the real arena and the model.", "6/C02"),
@@ -24,10 +24,10 @@ C = {
  "C08": ("HandlesOK is an invariant of MCOrd (both forms, every probe, agreement); on the real trees every handle query is followed by a read through the handle, and write / delete through it are checked by TLC on the snapshot (exactly that entry changed / removed).", "6/C08"),
  "C09": ("StepsOK (both neighbour steps from every stored entry, full forward and backward walks) is an invariant of MCOrd; the real SetTree is stepped from every stored entry of every covered state and walked end to end with a step budget.", "6/C09"),
  "C10": ("every model accesses arena and chunk vector through asserting accessors; every trace of every driver on all seven collections comes from a build in which each unchecked index is checked, under catch_unwind and a watchdog, and TLC accepts only calls that returned normally.", "6/C10"),
- "C11": ("PoolOK (exact partition sentinel / tree / free list) and the growth bound are invariants of MCOrd / MCKey for capacity hints 0,1,8,9,32; TLC evaluates PoolOK and a bound on arena slots vs. peak population on every logged snapshot, including long churn on 64 keys.", "6/C11"),
+ "C11": ("PoolOK (exact partition sentinel / tree / free list) and the growth bound are invariants of MCOrd / MCKey for capacity hints 0,1,8,9,32; the storage bound itself is an inductive invariant of the integer abstraction of the pool (PoolSym) discharged by Apalache for arenas and histories of every size, and the concrete models assert that every transition projects onto its abstract steps; TLC evaluates PoolOK and a bound on arena slots vs. peak population on every logged snapshot, including churn on 64 keys, clear churn, large capacity hints and sampled large trees.", "6/C11"),
  "C12": ("clear is asserted to lead to the initial abstract state from every reachable model state; on the real code `P; clear; S` and `S` on a fresh instance are validated by TLC and compared result by result, for all seven collections.", "6/C12"),
  "C13": ("the same layer-0 modules validate traces of KeyExpList, MapList, SetList (handles = positions, sentinel past either end); MCKeyList model-checks the min_exp shortcut (lower bound of stored expirations; no expired entry observable, no live one dropped).", "6/C13"),
- "C14": ("MCLayout checks the layout arithmetic for all lengths up to MaxLen and powers of two +-1 up to 2^30 incl. the scaling lemma; SegExpTree::new is run over a grid of i32/u32/i64 domains and TLC checks Some/None, chunk count, place of single-point inserts and visibility from single-point queries at lo, hi and bucket edges.", "6/C14"),
+ "C14": ("the layout arithmetic (built iff > 16 points, bucket range, monotonicity, least width, chunk count, scaling lemma) is checked symbolically with Apalache for every domain length up to 2^62 and every offset (SegLayoutSym), and by TLC (MCLayout) on a grid of lengths; SegExpTree::new is run over a grid of i32/u32/i64 domains and TLC checks Some/None, chunk count, place of single-point inserts and visibility from single-point queries at lo, hi and bucket edges.", "6/C14"),
  "C15": ("complete static TLC check for H=5 (528 ranges, 278 784 pairs): transcribed loops = declarative masks, exact tiling, <= 8 places, meet iff overlap; the real tree over [0,31] is probed for all 528 insert ranges x 528 query ranges.", "6/C15"),
  "C16": ("MCSeg asserts that after next() returns None for a whole-domain query no stored copy has e < t; on the real tree the stored copies (hook) after every completely consumed whole-domain query must be exactly the copies of the unexpired values.", "6/C16"),
  "C17": ("in MCOrd every insert transition from every reachable state is asserted to leave the entity of every stored slot unchanged; on the real trees handles for all stored entries are held over all insertion orders of the absent keys and re-read after each insertion, and TLC checks slot stability on the snapshots.", "6/C17"),
